@@ -604,7 +604,7 @@ def run_impl_resilient(ctx, exe, name, cases, per_case_timeout=60, alone=lambda 
     while start < len(batch) and tries < 60:
         idx = batch[start:]
         cf = write_cases(ctx, '%s_%d' % (name, tries), [cases[i] for i in idx])
-        rc, res = run_impl(ctx, exe, cf, timeout=max(120, per_case_timeout * min(len(idx), 20)))
+        rc, res = run_impl(ctx, exe, cf, timeout=max(300, 60 * min(len(idx), 20)))
         for k, r in enumerate(res): out[idx[k]] = r
         if len(res) >= len(idx): break
         out[idx[len(res)]] = single(idx[len(res)])
@@ -674,8 +674,10 @@ def gen_fit_case(rng, tag, quick):
     ncov = rng.choice([1, 2, 2, 3])
     types = rng.sample(FITTYPES if ndim <= 3 else FITTYPES, ncov)
     if path in (2, 3): types = [t for t in types if t not in (11,)] or [2]
+    nugget_only_nlopt = lambda: path == 3 and all(t == 0 for t in types)
     opts = [rng.random() < .5, rng.random() < .85 or nvar > 1, rng.random() < .7, rng.random() < .7, rng.random() < .25, rng.random() < .2,
             rng.random() < .15, rng.random() < .15, False, nvar > 1 and rng.random() < .1]
+    if nugget_only_nlopt(): opts[1] = True     # without Goulard this configuration does not terminate (known finding, one directed scenario)
     mauto = [rng.choice([1000, 1000, 100, 100, 100, 0, 1, 5, 20, 50]), rng.choice([0, 1, 2, 2, 2, 3])]
     items = []
     if rng.random() < .6:
@@ -754,6 +756,7 @@ def check_fit_result(ctx, c, ii):
     d = DESCR.get(c[13])
     def fatal(kind):
         # key of a crash / exception: the part of the configuration that selects the failing code
+        if kind == 'no-termination': return '%s:no-termination' % PATHS[path]
         if path in (2, 3) and d and d[2] > 0: return '%s:empty-lag:crash' % PATHS[path]      # heap corruption: crash or bad_alloc-like exception
         if opts[9] and kind == 'crash': return '%s:intrinsic:crash' % PATHS[path]
         if kind.startswith('exception-') and kind != 'exception-length-error': return '%s:%s' % (PATHS[path], kind)
@@ -1031,6 +1034,7 @@ def directed_fit_cases():
     add(0, 2, p2, dirs2(2), [0, 2], O(), cons=D(2), maxiter=0)
     add(2, 2, p2, dirs2(2), [0, 2], O(), cons=D(2), maxiter=50)
     add(3, 2, p2, dirs2(2), [0, 2], O(), cons=D(2), maxiter=50)
+    add(3, 1, p1[:40], dirs2(1, npas=5), [0], O(goulard=0), maxiter=100)      # ModelOptimVario, nugget only, no Goulard: never returns
     # degenerate but not constant data (known findings: the fitted model is PSD, yet kriging with it is singular)
     #  - second variable equal to 0 everywhere except at one far sample: its variogram is 0 at every valid lag -> zero sills
     pz = [[xy, [z[0], D(0)]] for xy, z in p2[:40]] + [[[D(100), D(100)], [D(1), D(5)]]]
@@ -1062,7 +1066,7 @@ def stage_fit(ctx, exe, runner, quick):
     descr = run_impl_resilient(ctx, exe, 'fitdescr', [[12] + c[1:] for c in cases])
     for c, d in zip(cases, descr):
         if isinstance(d, list) and len(d) == 3: DESCR[c[13]] = d
-    res = run_impl_resilient(ctx, exe, 'fit', cases, alone=lambda c: c[1] in (2, 3))
+    res = run_impl_resilient(ctx, exe, 'fit', cases, per_case_timeout=15, alone=lambda c: c[1] in (2, 3))
     mcases = []; mmeta = []
     for c, ii in zip(cases, res):
         ctx.count(sx_str(c)[:4000]); ctx.dist('fit_' + fit_combo(c)); ctx.dist('fit_ndim%d_nvar%d_ncov%d' % (c[2], c[3], len(c[7])))
